@@ -69,6 +69,8 @@ class LiaDomain:
             ml, mh = 1, 1
             for a in m:
                 al, ah = st.bounds.get(a, (None, None))
+                if al is None and getattr(st, "run", None) is not None:
+                    al, ah = st.run.gbounds.get(a, (None, None))
                 if al is None:
                     return None, None
                 cands = [ml * al, ml * ah, mh * al, mh * ah]
@@ -88,6 +90,19 @@ class LiaDomain:
         c = self.concrete(x)
         if c is not None:
             r = (Poly.const(c >> k), Poly.const(c & ((1 << k) - 1)))
+            st.cache[key] = r
+            return r
+        # x = low + 2^k*high with `high` the terms whose coefficient is divisible by 2^k:
+        # floor(x/2^k) = high + floor(low/2^k), x mod 2^k = low mod 2^k
+        hi_t = {m: cf >> k for m, cf in x.t.items() if cf % (1 << k) == 0}
+        if hi_t and len(hi_t) < len(x.t):
+            low = Poly({m: cf for m, cf in x.t.items() if cf % (1 << k) != 0})
+            ql, rl = self.divmod_pow2(st, low, k)
+            r = (Poly(hi_t) + ql, rl)
+            st.cache[key] = r
+            return r
+        if hi_t and len(hi_t) == len(x.t):
+            r = (Poly(hi_t), Poly.const(0))
             st.cache[key] = r
             return r
         qn, rn = self.new_name("q"), self.new_name("r")
@@ -169,6 +184,15 @@ class LiaDomain:
                 # a < 2^k' and b multiple... handled by the swapped iteration
             # x = r (mod 2^k) remainder atom and y constant multiple of 2^k
             raise Unsupported("lia: | of non-disjoint operands")
+        if op in ("/", "%"):
+            cy = self.concrete(y)
+            if cy is None or cy <= 0:
+                raise Unsupported("lia: division by non-constant")
+            xl, _ = self.interval(st, x)
+            if xl is None or xl < 0:
+                st.oblige("nowrap", site, ("<=", Poly.const(0), x), "dividend is non-negative (Go truncates, the encoding floors)")
+            r = self.s_bin(st, op, x, y)
+            return r
         raise Unsupported("lia: binop %s" % op)
 
     def unop(self, st, op, x, width, signed, site):
@@ -435,6 +459,14 @@ def formula_atoms(f):
             return {f[1]}
         if f and f[0] in ("bvvar",):
             return {f[1]}
+        if f and f[0] == "uf":
+            return formula_atoms(f[2])
+        if f and f[0] in ("bvconst", "extract", "zext", "sext"):
+            s = set()
+            for g in f[1:]:
+                if isinstance(g, tuple):
+                    s |= formula_atoms(g)
+            return s
         for g in f[1:]:
             s |= formula_atoms(g)
         return s
@@ -516,6 +548,8 @@ class BvDomain:
             return sum(self.width(x) for x in t[1:])
         if k == "ite":
             return self.width(t[2])
+        if k == "uf":
+            return self.specw
         raise Unsupported("width of %r" % (k,))
 
     def concrete(self, x):
@@ -727,7 +761,11 @@ class BvDomain:
         if op == "%":
             if cb is not None and cb & (cb - 1) == 0 and cb > 0:
                 return self.mk("bvand", a, bvc(cb - 1, W))
-            return self.mk("bvurem", a, b)
+            if cb is not None:
+                # `x mod m` for a modulus that is not a power of two has no bit-level meaning here:
+                # it is an uninterpreted function of x (sound: can only lose proofs)
+                return ("uf", "mod_%d" % cb, a)
+            raise Unsupported("bv spec: mod by non-constant")
         raise Unsupported("bv spec op %s" % op)
 
     def s_neg(self, a):
@@ -742,9 +780,7 @@ class BvDomain:
 
     def s_cong(self, st, a, b, m):
         cm = self.concrete(m)
-        if cm is not None and cm & (cm - 1) == 0:
-            return self.cmp("==", self.s_bin(st, "%", a, m), self.s_bin(st, "%", b, m))
-        raise Unsupported("bv: cong modulo a non power of two")
+        return self.cmp("==", self.s_bin(st, "%", a, m), self.s_bin(st, "%", b, m))
 
     def s_ite(self, st, c, a, b):
         if c is True:
@@ -782,6 +818,9 @@ class BvDomain:
                 r = "((_ sign_extend %d) %s)" % (x[1], t(x[2]))
             elif k == "iff":
                 r = "(= %s %s)" % (t(x[1]), t(x[2]))
+            elif k == "uf":
+                ufs.add(x[1])
+                r = "(|%s| %s)" % (x[1], t(x[2]))
             elif k in ("and", "or") and len(x) == 2:
                 r = t(x[1])
             else:
@@ -801,15 +840,18 @@ class BvDomain:
         memo = {}
         keep = []
         body = []
+        ufs = set()
         for h in hyps:
             body.append("(assert %s)" % t(h))
         body.append("(assert (not %s))" % t(goal))
         used = set()
         for h in hyps + [goal]:
             used |= formula_atoms(h)
-        lines = ["(set-logic QF_BV)"]
+        lines = ["(set-logic QF_UFBV)" if ufs else "(set-logic QF_BV)"]
         for a in sorted(used):
             lines.append("(declare-const |%s| %s)" % (a, decl.get(a, "Bool")))
+        for u in sorted(ufs):
+            lines.append("(declare-fun |%s| ((_ BitVec %d)) (_ BitVec %d))" % (u, self.specw, self.specw))
         for nm, srt, r in order:
             lines.append("(define-fun %s () %s %s)" % (nm, srt, r))
         lines.extend(body)
